@@ -1,7 +1,102 @@
 import KitModel.Go.Prelude
-/-! Driver for property C17: `kitdrv C17` reads op lines on stdin, one answer line per input line. -/
+import KitModel.SliceHeap
+import KitModel.CryptoFrame
+/-!
+Driver for property C17: `kitdrv C17` reads one call per line and answers one line.
+
+  call fn=<pkg.Func> alg=<algorithm> v=fixed|orig size=<int> ctype=<content type> kind=<key kind>
+       auth=0|1 prim=0|1 sig=0|1 outlen=<int|-1> dec=<hex> nb=<number of buffers>
+       h0=<hex> h1=<hex> …          initial content of every caller buffer (= backing array)
+       a.<param>=<buf>:<off>:<len>:<cap> | a.<param>=nil      one per []byte argument
+
+Answer: `ok class=<class> may=<arr:lo-hi;…> wrote=<arr:lo-hi;…> ret=<len>:<where>,… rb=<hex>`
+  class  ok | ok:true | ok:false | err:<name> | panic          (how the model's run ends)
+  may    `mayWrite` — the cells the frame theorem allows to change (absolute cell indices)
+  wrote  the cells of the caller's buffers that differ after the model's run
+  ret    each returned slice: length (`?` when the caller gave no expected length) and where it
+         points: `b<k>+<off>` into caller buffer k, or `fresh`
+  rb     bytes of the first returned slice (compared for the padding functions)
+Everything is computed by `Kit.CryptoFrame.runCall` / `mayWrite`, the definitions the theorems of
+`KitProofs/Props/C17.lean` are about.
+-/
 namespace Driver.C17
+open Kit Kit.SH Kit.CryptoFrame
+
+def parseSlice (s : String) : Option Slice :=
+  if s == "nil" then some Slice.nil
+  else match (s.splitOn ":").mapM String.toNat? with
+    | some [b, o, l, c] => some ⟨b, o, l, c⟩
+    | _ => none
+
+def parseKind (s : String) : KeyKind :=
+  if s == "oct" then .oct else if s == "rsaPriv" then .rsaPriv else if s == "rsaPub" then .rsaPub
+  else if s == "ecPriv" then .ecPriv else if s == "ecPub" then .ecPub
+  else if s == "edPriv" then .edPriv else if s == "edPub" then .edPub else .okpOther
+
+def showRanges (rs : List (Nat × Nat × Nat)) : String :=
+  ";".intercalate (rs.map fun (a, lo, hi) => s!"{a}:{lo}-{hi}")
+
+/-- compress sorted cells into ranges -/
+def toRanges : List (Nat × Nat) → List (Nat × Nat × Nat)
+  | [] => []
+  | (a, i) :: rest =>
+    match toRanges rest with
+    | (b, lo, hi) :: more => if a = b ∧ i + 1 = lo then (a, i, hi) :: more else (a, i, i + 1) :: (b, lo, hi) :: more
+    | [] => [(a, i, i + 1)]
+
+def asymFns : List String :=
+  ["crypto.EncryptPublicKey", "crypto.DecryptPrivateKey", "crypto.SignPrivateKey"]
+
+def answer (l : Line) : String :=
+  match l.get? "fn", l.nat? "nb" with
+  | some fn, some nb =>
+    let heap? : Option (List (Array UInt8)) := (List.range nb).mapM fun k =>
+      (l.hex? s!"h{k}").map List.toArray
+    match heap? with
+    | none => "error bad-heap"
+    | some rows =>
+      let h : Heap := rows.toArray
+      let badArg := l.kv.any fun (k, v) => k.startsWith "a." && (parseSlice v).isNone
+      if badArg then "error bad-argument" else
+      let arg : String → Slice := fun name =>
+        ((l.get? s!"a.{name}").bind parseSlice).getD Slice.nil
+      let dec := ((l.hex? "dec").getD []).toArray
+      let env : Env := { stream := fun i => dec[i]?.getD 0x5A, authOk := l.nat? "auth" == some 1,
+                         primOk := l.nat? "prim" == some 1, sigOk := l.nat? "sig" == some 1 }
+      let alg := (l.get? "alg").getD ""
+      let outLen? := l.nat? "outlen"
+      let c : Call := { fn := fn, alg := alg, v := if l.get? "v" == some "orig" then .orig else .fixed,
+                        size := (l.int? "size").getD 0, ctype := (l.get? "ctype").getD "",
+                        kind := parseKind ((l.get? "kind").getD ""), env := env,
+                        outLen := outLen?.getD 1, arg := arg }
+      let (out, h') := runCall c h
+      let lenUnknown := outLen?.isNone && (asymFns.contains fn ||
+        ((fn == "crypto.Encrypt" || fn == "crypto.Decrypt") && algsEncryptAsymmetric.contains alg))
+      let showSlice (s : Slice) : String :=
+        let ln := if lenUnknown then "?" else toString s.len
+        let wh := if s.len == 0 then "-" else if s.arr < nb then s!"b{s.arr}+{s.off}" else "fresh"
+        s!"{ln}:{wh}"
+      let (cls, ret, rb) : String × String × String :=
+        match out with
+        | .ok (.slices ss) => ("ok", ",".intercalate (ss.map showSlice),
+            match ss with
+            | s :: _ => toHex (h'.read s)
+            | [] => "")
+        | .ok (.bool b) => (if b then "ok:true" else "ok:false", "", "")
+        | .err e => (s!"err:{e}",
+            -- Go returns nil slices beside an error
+            (if fn == "crypto.Encrypt" || fn == "crypto.EncryptSymmetric" then "0:-,0:-"
+             else if fn == "crypto.VerifyPublicKey" || fn == "crypto.ParseKey" || fn == "aescbcaead.New" then ""
+             else "0:-"), "")
+        | .panic _ => ("panic", "", "")
+      s!"ok class={cls} may={showRanges (mayWrite c)} wrote={showRanges (toRanges (changedCells h h'))} ret={ret} rb={rb}"
+  | _, _ => "error bad-request"
+
+def step (_ : Unit) (line : String) : Unit × String :=
+  let l := parseLine line
+  if l.op == "call" then ((), answer l) else ((), "error unknown-op")
+
 def main (_args : List String) : IO UInt32 := do
-  IO.eprintln "kitdrv: C17 has no model driver yet"
-  return 2
+  lineLoop step ()
+  return 0
 end Driver.C17
